@@ -104,6 +104,8 @@ pub fn run(suite: &str, seed: u64, n: usize, corpus: Option<&Path>) -> Vec<Case>
         "tptp" => tptp(seed, n, corpus),
         "files" => files(seed, n),
         "status" => status(seed, n),
+        "print" => print(seed, n, corpus),
+        "decompose" => decompose(seed, n),
         "external" => external(seed, n, corpus, false),
         "external_text" => external(seed, n, corpus, true),
         "substitute" => substitute(seed, n, corpus),
@@ -907,6 +909,60 @@ fn status(seed: u64, n: usize) -> Vec<Case> {
             Err(StatusExtractionError::Unknown(w)) => format!("(unknown {})", sexp::q(&w)),
         });
         cases.push(Case { req: format!("(status_of {})", sexp::q(&out)), nontrivial: imp != "missing", imp, tag: "status", origin: format!("seed:{seed}:{i}") });
+    }
+    cases
+}
+
+// ------------------------------------------------------------------ printers
+
+fn print(seed: u64, n: usize, corpus: Option<&Path>) -> Vec<Case> {
+    let mut cases = vec![];
+    for (origin, p) in programs(seed ^ 0xA1, n / 3, corpus, &["programs"]) {
+        let input = sexp::program(&p);
+        let imp = guarded(move || sexp::q(&p.to_string()));
+        cases.push(Case { req: format!("(print_program {input})"), nontrivial: true, imp, tag: "print_program", origin });
+    }
+    for (origin, f) in formulas(seed ^ 0xA2, n / 3, corpus, &["formulas"]) {
+        let input = sexp::formula(&f);
+        let imp = guarded(move || sexp::q(&f.to_string()));
+        cases.push(Case { req: format!("(print_formula {input})"), nontrivial: true, imp, tag: "print_formula", origin });
+    }
+    let mut rng = Rng::new(seed ^ 0xA3);
+    for i in 0..n / 3 {
+        let t = gen_ext_task(&mut rng, format!("seed:{seed}:{i}"));
+        let ug = t.ug.clone();
+        let imp = guarded(move || sexp::q(&ug.to_string()));
+        cases.push(Case { req: format!("(print_ug {})", ug_sexp(&t.ug)), nontrivial: true, imp, tag: "print_ug", origin: t.origin.clone() });
+        let po = t.po.clone();
+        let imp = guarded(move || sexp::q(&po.to_string()));
+        cases.push(Case { req: format!("(print_spec {})", spec_sexp(&t.po)), nontrivial: true, imp, tag: "print_spec", origin: t.origin.clone() });
+    }
+    cases
+}
+
+// ------------------------------------------------------------------ Problem::decompose on random problems
+
+fn decompose(seed: u64, n: usize) -> Vec<Case> {
+    let mut cases = vec![];
+    let mut rng = Rng::new(seed ^ 0xDEC0);
+    for i in 0..n {
+        let mut g = Gen::new(rng.fork());
+        g.nvars = 3;
+        let nax = match g.rng.below(4) { 0 => 0, 1 => 1, _ => 1 + g.rng.below(3) };
+        let ncj = g.rng.below(4);
+        let mut formulas = vec![];
+        // axioms and conjectures interleaved in random order, names sometimes empty / underscore-led
+        let mut roles: Vec<problem::Role> = (0..nax).map(|_| problem::Role::Axiom).chain((0..ncj).map(|_| problem::Role::Conjecture)).collect();
+        for k in (1..roles.len()).rev() { let j = g.rng.below(k + 1); roles.swap(k, j); }
+        for (k, role) in roles.into_iter().enumerate() {
+            let name = match g.rng.below(5) { 0 => String::new(), 1 => format!("_f{k}"), _ => format!("f{k}") };
+            formulas.push(problem::AnnotatedFormula { name, role, formula: g.formula(1) });
+        }
+        let p = problem::Problem::with_name("prob").add_annotated_formulas(formulas);
+        let dec = if g.rng.chance(1, 2) { Decomposition::Independent } else { Decomposition::Sequential };
+        let req = format!("(decompose {} {})", problem_sexp(&p), if dec == Decomposition::Independent { "independent" } else { "sequential" });
+        let imp = guarded(move || sexp::list(p.decompose(dec).iter().map(problem_sexp)));
+        cases.push(Case { req, nontrivial: imp != "()", imp, tag: "decompose", origin: format!("seed:{seed}:{i}") });
     }
     cases
 }
